@@ -8,7 +8,7 @@ import shutil
 import core
 
 ID = "C20"
-READY = False
+READY = True
 ORACLE = "c20"
 HARNESS_BIN = "c20"
 NCASES = {"quick": 12000, "thorough": 120000}
